@@ -71,6 +71,7 @@ def run(tier, seed, replay):
         weird = [jqgen.V(x) for x in (None, True, 0, -1, 2 ** 63, -(2 ** 63) - 1, 10 ** 40, 0.5, float("nan"), float("inf"), float("-inf"), "", "a", "\u0000", "\U0010FFFF", [], {}, [[[]]], {"a": {"a": {"a": None}}},
                                       [1, "a", None, [2]], {"": 0}, "1e1000", "{", list(range(40)))] + [deep, wide, {"t": "bytes", "b": [255, 254]}, {"t": "arr", "a": [{"t": "bytes", "b": [237, 160, 128]}]},
                                                                                                           {"t": "obj", "o": [[[97], {"t": "bytes", "b": [192]}]]}]
+        weird += [jqgen.V(x) for x in (["a", [1], "b"], [[], "x"], ["a", {}, "b", "c"], [1, None, "a", [2], {"b": 3}, True], {"a": [1, "x"], "b": None}, [[1, 2], "a", [3]], ["é", 2 ** 64, 0.5, "z"])]
         if replay:
             c = json.load(open(replay))["case"]
             libcases = [dict(c, id=0)] if "srcb" in c else []
@@ -88,6 +89,16 @@ def run(tier, seed, replay):
                 libcases.append({"id": len(libcases), "srcb": list(src.encode()), "inputs": r.sample(weird, 3), "rep": r.randrange(4)})
             for _ in range(300 if quick else 10000):
                 libcases.append({"id": len(libcases), "srcb": [r.randrange(256) for _ in range(r.randrange(12))], "inputs": [jqgen.V(None)], "rep": 0})
+            # every builtin on EVERY boundary input (arguments: the input itself, a string, a number)
+            for nm in names:
+                n, ar = nm.rsplit("/", 1)
+                if n in ("input", "inputs", "halt", "halt_error", "debug", "stderr", "input_filename", "repeat", "range", "until", "while", "recurse", "limit", "combinations", "walk", "env", "builtins"):
+                    continue
+                for args in ([".", "\",\"", "1"], ["\"a\"", ".", "."], ["0", "null", ".[0]"]):
+                    src = n + ("(" + "; ".join(args[:int(ar)]) + ")" if int(ar) else "")
+                    libcases.append({"id": len(libcases), "srcb": list(src.encode()), "inputs": weird, "rep": r.randrange(4)})
+                    if int(ar) == 0:
+                        break
             clicases = []
             for _ in range(500 if quick else 12000):
                 argv = [r.choice(FLAGS) for _ in range(r.randrange(5))]
